@@ -11,19 +11,19 @@ def registry(sc):
     for sd in sc['stacks']:
         subs = []
         for s in sd.get('subs', []):
-            subs.append((s['cid'], 'ecu', s.get('filt')))
+            subs.append((s['cid'], 'ecu', s.get('filt'), s.get('late') or 0))
         for cd in sd.get('cas', []):
             for cid in cd.get('subs', []):
-                subs.append((cid, 'ca', cd.get('addr') if cd.get('bypass') else None))
+                subs.append((cid, 'ca', cd.get('addr') if cd.get('bypass') else None, 0))
         reg.append(subs)
     return reg
 
 
-def owners(sc, j, d):
-    """does stack j accept destination d (an ECU-level integer subscription or an operational CA owns it)"""
+def owners(sc, j, d, t=1 << 62):
+    """does stack j accept destination d at time t (an ECU-level integer subscription or an operational CA owns it)"""
     sd = sc['stacks'][j]
     for s in sd.get('subs', []):
-        if s.get('filt') == d:
+        if s.get('filt') == d and (s.get('late') or 0) <= t:
             return True
     for cd in sd.get('cas', []):
         if cd.get('bypass') and cd.get('addr') == d:
@@ -31,17 +31,17 @@ def owners(sc, j, d):
     return False
 
 
-def receivers(sc, reg, src_stack, d):
-    """[(stack, cid)] that must receive a message with destination d sent by src_stack"""
+def receivers(sc, reg, src_stack, d, t=1 << 62):
+    """[(stack, cid)] that must receive a message with destination d sent by src_stack at time t"""
     out = []
     for j, subs in enumerate(reg):
         if j == src_stack or not sc['stacks'][j].get('on_bus', True):
             continue
         if d == 255:
-            out += [(j, cid) for cid, kind, filt in subs]
-        elif owners(sc, j, d):
-            for cid, kind, filt in subs:
-                if (kind == 'ecu' and (filt is None or filt == d)) or (kind == 'ca' and filt == d):
+            out += [(j, cid) for cid, kind, filt, late in subs if late <= t]
+        elif owners(sc, j, d, t):
+            for cid, kind, filt, late in subs:
+                if late <= t and ((kind == 'ecu' and (filt is None or filt == d)) or (kind == 'ca' and filt == d)):
                     out.append((j, cid))
     return out
 
@@ -59,14 +59,18 @@ def expected_callbacks(sc, res, lost_ok=False):
     reg = registry(sc)
     exp = Counter()
     acks = Counter()
-    for ev, r in res.returns:
+    sends = [(ev, r) for ev, r in res.returns if ev['op'] == 'send']
+    if sc.get('meta', {}).get('callback_sends'):
+        # messages are also submitted from inside callbacks: every send_pgn call of the run, with what it returned
+        sends = [(dict(op='send', s=e[1], t=e[0], a=[e[3], e[4], e[5], e[6], e[7], list(e[10])]), e[9]) for e in res.trace if e[2] == 'send_pgn']
+    for ev, r in sends:
         if ev['op'] != 'send' or r is not True:
             continue
         dp, pf, ps, prio, sa, pl = ev['a'][:6]
         data = tuple(payload(pl))
         d = dest_of(pf, ps)
         pgn = expected_pgn(dp, pf, ps)
-        rec = receivers(sc, reg, ev['s'], d)
+        rec = receivers(sc, reg, ev['s'], d, ev.get('t', 1 << 62))
         for j, cid in rec:
             exp[(j, cid, pgn, sa, data)] += 1
         multi = len(data) > (8 if sc['stacks'][ev['s']].get('dll', 'j1939-21') == 'j1939-21' else 60)
@@ -74,7 +78,7 @@ def expected_callbacks(sc, res, lost_ok=False):
             # connection-mode: the completed transfer is reported to the originator's listeners for `sa`
             n = (len(data) + 6) // 7
             ack = tuple(R.ref_eom_ack(len(data), n, pgn))
-            for cid, kind, filt in reg[ev['s']]:
+            for cid, kind, filt, late in reg[ev['s']]:
                 if (kind == 'ecu' and (filt is None or filt == sa)) or (kind == 'ca' and filt == sa):
                     acks[(ev['s'], cid, pgn, d, ack)] += 1
     return exp, acks
